@@ -34,10 +34,22 @@ ONE = 1.0 - 2.0 ** -53
 
 
 def plan(tier):
-    return [('seeded', 6000 if tier == 'quick' else 120000)]
+    return [('seeded', 6000 if tier == 'quick' else 120000),
+            ('marathon', 16 if tier == 'quick' else 400)]
 
 
 def make_case(family, i, rng, tier):
+    if family == 'marathon':
+        # more than a thousand consecutive attempts that never reach Ready
+        n = rng.choice([1030, 1100, 1300])
+        mn, mx = rng.choice(WAITS)
+        return {'outcomes': [rng.choice(['gaierror', 'refused'])
+                             for _ in range(n)],
+                'min_wait': mn, 'max_wait': mx, 'poll': 5, 'ping_rate': 30,
+                'ping_timeout': None,
+                'draws': [rng.choice([0.0, ONE, 0.5]) for _ in range(7)],
+                'stop_at': None, 'app_sends': False,
+                'close_on_connecting': None}
     n = rng.choice([3, 4, 6, 10, 20, 40])
     mode = rng.choice(['mixed', 'mixed', 'fail_run', 'mostly_ready'])
     outs = []
@@ -123,7 +135,7 @@ def build(case):
                         'ping_timeout': case['ping_timeout'],
                         'stop_at': stop_at},
             'random': case['draws'], 'conns': conns, 'app': app,
-            'max_polls': 50000}, stop_at
+            'max_polls': 50000, 'max_events': 50000}, stop_at
 
 
 def execute(case):
